@@ -62,6 +62,12 @@ structure Msm (F G : Type) where
   fixed : List (String × F)
 deriving DecidableEq, Repr
 
+/-- `Msm::new(bases, scalars, fixed_base_scalars)` / `Msm::from_terms(bases, scalars)`:
+`none` = `assert_eq!(bases.len(), scalars.len())` fails. -/
+def Msm.new? {F G : Type} (bases : List G) (scalars : List F) (fixed : List (String × F)) :
+    Option (Msm F G) :=
+  if bases.length = scalars.length then some ⟨scalars.zip bases, fixed⟩ else none
+
 /-- `accumulator.rs: struct Accumulator`. -/
 structure Accumulator (F G : Type) where
   lhs : Msm F G
